@@ -36,7 +36,7 @@ type rpcNode struct {
 
 func init() {
 	scenarios["c10_register"] = func(raw json.RawMessage) *vrt.Scenario {
-		return &vrt.Scenario{Name: "c10_register", Main: registerMain, FreeChoices: true, MaxSteps: 2_000_000, NoTimerAlt: true}
+		return &vrt.Scenario{Name: "c10_register", Main: registerMain, FreeChoices: true, MaxSteps: 2_000_000, NoTimerAlt: true, Classify: sdClassify}
 	}
 }
 
